@@ -19,7 +19,7 @@ Soundness rule for the write set: every name assigned anywhere in the loop (targ
 assignments, subscript/attribute bases) must either be given a value by CutSpec.havoc or is bound to a
 POISON object that raises Unsupported on any use -- a stale pre-loop value can never leak into the step.
 """
-import ast, inspect, textwrap, types, hashlib, os, copy, re
+import ast, traceback, inspect, textwrap, types, hashlib, os, copy, re
 from . import core as S
 
 
@@ -48,8 +48,15 @@ class CutSpec:
         self.name = name
 
 
+_MUTATORS = ('append', 'add', 'pop', 'update', 'extend', 'remove', 'clear', 'insert', 'discard', 'setdefault', 'popitem', 'sort', 'reverse', 'fill',
+             'appendleft', 'popleft', '__setitem__', '__delitem__')
+_IMMUTABLE = (int, float, complex, str, bytes, tuple, frozenset, bool, type(None), range)
+
+
 class Runtime:
-    def __init__(self, specs, write_sets, fname, iter_srcs=None):
+    def __init__(self, specs, write_sets, fname, iter_srcs=None, mutated=None, called=None):
+        self.mutated = mutated or {}
+        self.called = called or {}
         self.specs = specs
         self.iter_srcs = iter_srcs or {}
         self.write_sets = write_sets
@@ -63,6 +70,12 @@ class Runtime:
             return fn(*a)
         except KeyError as e:
             raise S.Unbound('loop contract of %s cannot be bound to the current source: local variable %s not found' % (self.fname, e))
+        except (IndexError, AttributeError, TypeError) as e:
+            # raised by the CONTRACT's own code while it reads the function's locals: they do not have the shape the contract was written for
+            tb = traceback.extract_tb(e.__traceback__)
+            if tb and '/props/' in tb[-1].filename:
+                raise S.Unbound('loop contract of %s cannot be bound to the current source: %s: %s' % (self.fname, type(e).__name__, e))
+            raise
 
     def begin(self, k, L):
         S.check('%s:loop%d:inv-init' % (self.fname, k), self._bind(self.specs[k].inv, dict(L)))
@@ -73,6 +86,25 @@ class Runtime:
         out = []
         for n in self.write_sets[k]:
             out.append(h[n] if n in h else _Poison(n))
+        # havoc rebinds NAMES; the real loop mutates OBJECTS.  If another live local is the same mutable object as a havocked one, or a method bound to it
+        # (`get = acc.get` before the loop), the body would read the pre-loop object through the alias while the contract talks about the havocked one:
+        # such a contract does not describe the current source -> unbound (undecided), never a failed obligation.
+        ws = set(self.write_sets[k])
+        for m in self.called.get(k, ()):
+            v = L.get(m, None)
+            owner = getattr(v, '__self__', None)
+            if owner is not None and getattr(v, '__name__', '') in _MUTATORS and not isinstance(owner, _IMMUTABLE):
+                raise S.Unbound('loop %d of %s changes an object through the bound method %r (= %s.%s) taken before the loop; its contract names the object' % (
+                    k, self.fname, m, type(owner).__name__, v.__name__))
+        for n in ws & self.mutated.get(k, ws):
+            v0 = L.get(n, None)
+            if v0 is None or isinstance(v0, _IMMUTABLE) or type(v0).__module__.startswith('symrun.core'):
+                continue
+            for m, v in L.items():
+                if m in ws or m.startswith('__'):
+                    continue
+                if v is v0 or getattr(v, '__self__', None) is v0:
+                    raise S.Unbound('loop %d of %s: local %r aliases the loop-carried object %r that the contract havocs' % (k, self.fname, m, n))
         L2 = dict(L)
         L2.update({n: v for n, v in zip(self.write_sets[k], out)})
         S.assume(self._bind(self.specs[k].inv, L2))
@@ -237,6 +269,40 @@ def _locals():
     return ast.Call(func=ast.Name(id='locals', ctx=ast.Load()), args=[], keywords=[])
 
 
+def _mutated_set(loop):
+    """names whose OBJECT the loop may change in place (subscript / attribute stores, augmented assignment, mutating method calls) -- as opposed to
+    names that are only rebound"""
+    names = set()
+
+    def base(t):
+        while isinstance(t, (ast.Subscript, ast.Attribute, ast.Starred)):
+            t = t.value
+        return t
+
+    def add_target(t, aug=False):
+        if isinstance(t, (ast.Tuple, ast.List)):
+            for e in t.elts:
+                add_target(e, aug)
+            return
+        b = base(t)
+        if isinstance(b, ast.Name) and (aug or b is not t):
+            names.add(b.id)
+
+    for n in ast.walk(loop):
+        if isinstance(n, ast.Assign):
+            for t in n.targets:
+                add_target(t)
+        elif isinstance(n, ast.AugAssign):
+            add_target(n.target, aug=True)
+        elif isinstance(n, ast.AnnAssign):
+            add_target(n.target)
+        elif isinstance(n, ast.Call) and isinstance(n.func, ast.Attribute) and isinstance(base(n.func), ast.Name):
+            if n.func.attr in ('append', 'add', 'pop', 'update', 'extend', 'remove', 'clear', 'insert', 'discard',
+                               'setdefault', 'popitem', 'sort', 'reverse', 'fill'):
+                names.add(base(n.func).id)
+    return names
+
+
 def _back_edge_stmt(k):
     return ast.Expr(value=_call('back_edge', ast.Constant(k), _locals()))
 
@@ -253,6 +319,8 @@ def cut(fn, specs, dump_dir=None):
     fnode.decorator_list = []
     loops = _loops_preorder(fnode)
     write_sets = {}
+    mutated = {}
+    called = {}
     iter_srcs = {k: ast.unparse(loops[k].iter) for k in specs if k < len(loops) and isinstance(loops[k], ast.For)}
     for k in specs:
         if k >= len(loops):
@@ -262,6 +330,14 @@ def cut(fn, specs, dump_dir=None):
         loop = loops[k]
         ws = _write_set(loop)
         write_sets[k] = ws
+        mutated[k] = _mutated_set(loop)
+        called[k] = sorted({n.func.id for n in ast.walk(loop) if isinstance(n, ast.Call) and isinstance(n.func, ast.Name)})
+        # havoc assigns NAMES of the function; a loop that also writes an object reached through a module global (a debug counter, a memo table)
+        # carries state the loop contract does not describe: unbound (undecided), never a failed obligation
+        code_locals = set(fn.__code__.co_varnames) | set(fn.__code__.co_cellvars) | set(fn.__code__.co_freevars)
+        for n in ws:
+            if n not in code_locals:
+                raise S.Unbound('loop %d of %s writes %r, which is not a local of the function (module-level state that its loop contract does not describe)' % (k, fn.__qualname__, n))
         body = [(_ContinueToBackEdge(k).visit(s)) for s in loop.body]
         body = [s for s in body if s is not None] + [_back_edge_stmt(k)]
         pre = [ast.Expr(value=_call('begin', ast.Constant(k), _locals()))]
@@ -311,7 +387,7 @@ def cut(fn, specs, dump_dir=None):
     code = compile(tree, src_file + '<cut>', 'exec')
     exec(code, ns)
     g = ns[fnode.name]
-    rt = Runtime(specs, write_sets, fn.__qualname__, iter_srcs)
+    rt = Runtime(specs, write_sets, fn.__qualname__, iter_srcs, mutated, called)
     fn.__globals__[_GN[0]] = rt       # the only addition to the module namespace; code uses the LIVE module globals
     newf = types.FunctionType(g.__code__, fn.__globals__, fn.__name__, fn.__defaults__, fn.__closure__)
     newf.__kwdefaults__ = fn.__kwdefaults__
